@@ -78,6 +78,14 @@ var wideConsts = []cval{
 	{"9999999999999999", true},
 }
 
+// pairs of constants that are Equal at run time without being the same representation
+var equalPairs = [][2]cval{
+	{{"1000", true}, {"1e3", true}}, {{"1", true}, {"1.0", true}}, {{"100000", true}, {"1e5", true}},
+	{{"#(1)", false}, {"#(1)", false}}, {{"1000000000000000", true}, {"1e15", true}},
+	{{"'a'", false}, {"'a'", false}}, {{"#20200101", false}, {"#20200101", false}},
+	{{".5", true}, {"0.50", true}}, {{"#(a: 1)", false}, {"#(a: 1)", false}},
+}
+
 type opinfo struct{ src, lean string }
 
 var fragBin = []opinfo{{"is", "is"}, {"isnt", "isnt"}, {"<", "lt"}, {"<=", "lte"}, {">", "gt"},
@@ -130,6 +138,36 @@ func (g *gen) leafOf(want int) *E {
 }
 
 func (g *gen) leaf() *E { return g.leafOf(wAny) }
+
+func (g *gen) leafText(c cval) *E {
+	g.leaves = append(g.leaves, c)
+	return &E{k: kLeaf, text: c.text, leaf: len(g.leaves) - 1}
+}
+
+// equalPattern: `x in (…, y, …)`, `x is y`, `x isnt y`, `x <= y` … with x and y Equal constants of
+// different representation (integer vs decimal literal, separately built objects)
+func (g *gen) equalPattern() *E {
+	p := equalPairs[g.r.Intn(len(equalPairs))]
+	if g.r.Intn(2) == 0 {
+		p[0], p[1] = p[1], p[0]
+	}
+	x := g.leafText(p[0])
+	if g.r.Intn(3) == 0 {
+		ops := []string{"is", "isnt", "<=", ">=", "<", ">"}
+		return &E{k: kBinary, op: ops[g.r.Intn(len(ops))], kids: []*E{x, g.leafText(p[1])}}
+	}
+	n := 1 + g.r.Intn(3)
+	pos := g.r.Intn(n + 1)
+	kids := []*E{x}
+	for i := 0; i <= n; i++ {
+		if i == pos {
+			kids = append(kids, g.leafText(p[1]))
+		} else {
+			kids = append(kids, g.leafOf(wNum))
+		}
+	}
+	return &E{k: kIn, kids: kids}
+}
 
 // operand returns a sub-expression usable as an operand: leaves bare, compounds parenthesised
 func (g *gen) operand(depth, want int) *E {
@@ -512,6 +550,89 @@ var inexact = map[string]bool{".5": true, "1.5": true, "-2.25": true, ".1": true
 	"4294967296": true, "9223372036854775807": true, "1e15": true, "1000000000000000": true,
 	"1e200": true, "1e-200": true, "1e16": true, "9999999999999999": true, "0xffffffff": true}
 
+// localize finds a smallest sub-expression of e on which the partly constant program and the
+// all-run-time program already differ in the same way (value/value, throw/value, value/throw)
+// while none of its operands does; the difference is then named after that node's operator
+// instead of after the whole program (so a wrong `in` next to a `+` is not taken for rounding).
+func localize(e *E, inline, none []bool, hdr string, args []core.Value, kindOf func(a, b outcome) string, want string) *E {
+	for _, k := range e.kids {
+		if k.k == kLeaf {
+			continue
+		}
+		var sa, sb strings.Builder
+		src(k, inline, &sa)
+		src(k, none, &sb)
+		a := runProg(hdr+sa.String()+" }", args)
+		b := runProg(hdr+sb.String()+" }", args)
+		if kindOf(a, b) == want {
+			return localize(k, inline, none, hdr, args, kindOf, want)
+		}
+	}
+	return e
+}
+
+func diffKind(a, b outcome) string {
+	switch {
+	case a.err == "" && b.err == "":
+		if a.String() == b.String() {
+			return "same"
+		}
+		return "value/value"
+	case a.err != "" && b.err == "":
+		return "throw/value"
+	case a.err == "" && b.err != "":
+		return "value/throw"
+	}
+	return "same"
+}
+
+// leafInexact: a number whose sums/products can leave the range where both the int64 fast path
+// and the 16-digit decimal are exact (fraction, exponent form, or magnitude >= 2^31)
+func leafInexact(text string) bool {
+	if inexact[text] {
+		return true
+	}
+	if strings.HasPrefix(text, "0x") {
+		n, err := strconv.ParseInt(text[2:], 16, 64)
+		return err != nil || n >= 1<<31
+	}
+	f, err := strconv.ParseFloat(text, 64)
+	if err != nil {
+		return false
+	}
+	return f != math.Floor(f) || math.Abs(f) >= 1<<31 || strings.ContainsAny(text, "eE")
+}
+
+func hasInexactLeaf(e *E, inline []bool) bool {
+	if e.k == kLeaf {
+		return leafInexact(e.text)
+	}
+	for _, k := range e.kids {
+		if hasInexactLeaf(k, inline) {
+			return true
+		}
+	}
+	return false
+}
+
+// classifyAt names a value/value difference located at node x
+func classifyAt(x *E, inline []bool) string {
+	for x.k == kParen {
+		x = x.kids[0]
+	}
+	if x.k == kNary {
+		switch x.op {
+		case "|", "&":
+			return "fold-bitop-32bit-constant"
+		case "+", "*":
+			if hasInexactLeaf(x, inline) {
+				return "fold-reassoc-decimal"
+			}
+		}
+	}
+	return "fold-value-differs"
+}
+
 func classify(prog string, leaves []string, a, b outcome, direct bool) string {
 	switch {
 	case a.err == "" && b.err == "":
@@ -800,6 +921,12 @@ func main() {
 		if wide && r.Intn(12) == 0 {
 			e = g.rangePattern()
 			t.Count("shape:range-or-in-pattern")
+		} else if wide && r.Intn(12) == 0 {
+			e = g.equalPattern()
+			if r.Intn(2) == 0 {
+				e = &E{k: kNary, op: "$", kids: []*E{g.operand(1, wAny), &E{k: kParen, kids: []*E{e}}}}
+			}
+			t.Count("shape:equal-constants-of-different-representation")
 		} else {
 			e = g.expr(2+r.Intn(2), wAny)
 		}
@@ -882,6 +1009,13 @@ func main() {
 		}
 		direct := directLiteral(e, inline, g.leaves)
 		sig := classify(progA, leafTexts(g.leaves), a, b, direct)
+		if diffKind(a, b) == "value/value" {
+			at := localize(e, inline, none, hdr, args, diffKind, "value/value")
+			sig = classifyAt(at, inline)
+			var sl strings.Builder
+			src(at, inline, &sl)
+			progA += " [differs at: " + sl.String() + "]"
+		}
 		if a.err != "" && b.err != "" && errClass(a.err) != errClass(b.err) {
 			t.Count("both-throw-different-message:" + errClass(a.err) + "/" + errClass(b.err))
 		}
@@ -928,6 +1062,9 @@ func main() {
 		}
 		if i%10 == 0 {
 			daddCase(t, r)
+		}
+		if i%4 == 0 {
+			propfoldCase(t, r)
 		}
 	}
 }
